@@ -102,7 +102,8 @@ def ob_fundef_name(run, mir, rp):
             if key == "=":
                 claims.append(z3.Implies(conj(p.cond), same))
             elif key in documented:
-                claims.append(z3.BoolVal(True))
+                # the documented constructor name is kept as it is: nothing ELSE may be turned into it
+                claims.append(z3.Implies(conj(p.cond), same))
             else:
                 # a special-cased spelling that the documentation does not mention: the output differs from the input name
                 claims.append(z3.Implies(conj(p.cond), same))
@@ -160,6 +161,29 @@ def run(run):
             f(run, mir, rp)
         except Unsupported as e:
             run.ob(f.__name__[3:] + "-encoding", "E2", "kernel is encodable").inconclusive(f"unsupported construct: {e}")
+    try:
+        # an identifier is one token whatever letters, digits and underscores it is made of (renaming x1 -> x0 keeps it one name)
+        import lexstep
+
+        def munch_replay(what):
+            def f(model):
+                bad = []
+                for word, kind in (("x0", "Id"), ("a10", "Id"), ("v_2", "Id"), ("x1y", "Id"), ("Z9_", "Id"), ("_0", "Id"), ("q00", "Id"),
+                                   ("1000", "Int"), ("90", "Int"), ("12345678", "Int"), ("7", "Int")):
+                    st, toks = rp.tokens(word)
+                    if st != "OK":
+                        bad.append(f"{word!r}: {st} {toks}")
+                        continue
+                    real = [t for t in toks if t["tok"] not in ("Eof", "NL")]
+                    if len(real) != 1 or not real[0]["tok"].startswith(kind) or real[0]["text"] != word:
+                        bad.append(f"{word!r} lexes as {[t['tok'] for t in real]}")
+                if bad:
+                    return {"reproduced": True, "role": f"{what}:{bad[0].split(':')[0]}", "detail": "; ".join(bad[:4])}
+                return {"reproduced": False, "detail": "identifiers and numbers of the family lex as single tokens"}
+            return f
+        lexstep.obligations(run, mir, rp, munch_replay, want=("munch",))
+    except Unsupported as e:
+        run.ob("scan-loop-maximal-munch-encoding", "E2", "kernel is encodable").inconclusive(f"unsupported construct: {e}")
     if os.environ.get("VERIF_NO_KANI") != "1":
         import e1
         names = ["table_concrete_to_python", "table_long_names"] + (["table_as_op_or_id"] if run.tier == "thorough" else [])
